@@ -141,6 +141,46 @@ func genNumeral(rng *vlib.RNG, class int) (string, string) {
 			sfx = ".0000000000000001"
 		}
 		return fmt.Sprintf("%s0x%x%sp%d", sign, m, sfx, rng.Range(-1080, 960)), "hexfloat-54bit"
+	case 8: // mantissas on a machine-word boundary: k·2^(64w) + δ, as decimal or hex digits, possibly continued by more digits
+		w := uint(rng.Range(1, 3))
+		k := new(big.Int).SetUint64(rng.Uint64() >> uint(rng.Intn(64)))
+		if k.Sign() == 0 || rng.Chance(0.3) {
+			k.SetUint64(uint64(rng.Range(1, 9)))
+		}
+		m := new(big.Int).Lsh(k, 64*w)
+		switch rng.Intn(5) {
+		case 0:
+			m.Add(m, big.NewInt(1))
+		case 1:
+			m.Sub(m, big.NewInt(1))
+		case 2:
+			m.Add(m, new(big.Int).Lsh(big.NewInt(int64(rng.Range(1, 15))), 64*(w-1)))
+		}
+		if rng.Chance(0.4) {
+			ms := fmt.Sprintf("%x", m)
+			if rng.Bool() {
+				// the boundary value is a PREFIX of the digit string
+				ms += digits(rng, rng.Range(1, 6), true)
+			}
+			if rng.Bool() {
+				ms += "." + digits(rng, rng.Range(1, 18), true)
+			}
+			return fmt.Sprintf("%s0x%sp%d", sign, ms, rng.Range(-1100, 900)), "word-boundary-hex"
+		}
+		ms := m.String()
+		if rng.Bool() {
+			ms += digits(rng, rng.Range(1, 8), false)
+		}
+		switch rng.Intn(3) {
+		case 0:
+			ms += ".0"
+		case 1:
+			ms += "." + digits(rng, rng.Range(1, 12), false)
+		}
+		if rng.Bool() {
+			ms += fmt.Sprintf("e%d", rng.Range(-340, 280))
+		}
+		return sign + ms, "word-boundary-decimal"
 	default: // integers
 		return sign + strings.TrimLeft(digits(rng, rng.Range(1, 40), false), "0") + "0", "integer"
 	}
@@ -149,12 +189,19 @@ func genNumeral(rng *vlib.RNG, class int) (string, string) {
 func checkNumeral(r *vlib.Run, s, class, id string) {
 	var d *decimal.Decimal
 	var perr error
-	var got float64
-	var exact bool
+	var got, got2 float64
+	var exact, again bool
 	if pv, st := vlib.Try(func() {
 		d, perr = new(decimal.Decimal).Parse(s)
 		if perr == nil {
 			got, exact = d.Float64()
+			// converting is an observation, not a mutation: asking again must give the same answer
+			for k := 0; k < 2 && !again; k++ {
+				g2, e2 := d.Float64()
+				if math.Float64bits(g2) != math.Float64bits(got) || e2 != exact {
+					again, got2 = true, g2
+				}
+			}
 		}
 	}); pv != nil {
 		r.Violation("decimal.panic", "panic at "+vlib.PanicSite(st), id, map[string]any{"numeral": s, "panic": fmt.Sprint(pv)})
@@ -169,6 +216,11 @@ func checkNumeral(r *vlib.Run, s, class, id string) {
 	}
 	if perr != nil {
 		r.Violation("decimal.parse-rejects", class+": Parse rejects a numeral strconv accepts", id, map[string]any{"numeral": s, "error": perr.Error()})
+		return
+	}
+	if again {
+		r.Violation("decimal.float64-not-repeatable", class+": a second Float64 call on the same Decimal gives another answer", id, map[string]any{
+			"numeral": s, "first": strconv.FormatFloat(got, 'g', -1, 64), "later": strconv.FormatFloat(got2, 'g', -1, 64), "want": strconv.FormatFloat(want, 'g', -1, 64)})
 		return
 	}
 	if math.Float64bits(got) != math.Float64bits(want) {
@@ -209,7 +261,7 @@ func checkNumeral(r *vlib.Run, s, class, id string) {
 func TestC39(t *testing.T) {
 	r := vlib.Start(t, "C39")
 	defer r.Finish()
-	r.Extra("rule", "numerals generated per class (mant53-pow10, fraction, long-mantissa, halfway±δ, edge, pow10, hexfloat, hexfloat-54bit, integer) from the seed; "+
+	r.Extra("rule", "numerals generated per class (mant53-pow10, fraction, long-mantissa, halfway±δ, edge, pow10, hexfloat, hexfloat-54bit, word-boundary mantissas k·2^(64w)+δ in decimal and hex also as a prefix of the digit string, integer) from the seed; every Decimal is converted three times and must answer the same; "+
 		"exhaustive part: every m·10^e with m in 1..2000 odd/even and e in [-30,30]; distinct = distinct numeral strings; all are non-trivial (a conversion is performed)")
 	r.Extra("assumptions", []string{"strconv.ParseFloat is correctly rounded (ties to even)", "math/big rationals are exact"})
 
@@ -238,7 +290,7 @@ func TestC39(t *testing.T) {
 				continue
 			}
 			rng := r.Rng(id)
-			s, class := genNumeral(rng, i%9)
+			s, class := genNumeral(rng, i%10)
 			if rng.Chance(0.03) && len(s) > 3 && !strings.HasPrefix(strings.TrimPrefix(s, "-"), "0x") {
 				// underscores between digits are documented as ignored
 				k := rng.Range(1, len(s)-2)
@@ -248,7 +300,7 @@ func TestC39(t *testing.T) {
 			}
 			r.Eval(s)
 			r.Class("class:" + class)
-			if i < 9 {
+			if i < 10 {
 				r.Sample(class, s)
 			}
 			checkNumeral(r, s, class, id)
